@@ -1,6 +1,7 @@
 SPECIFICATION MCSpec
 CONSTANTS
   OrderBy = "convention"
+  Chain = "first"
   Decode = "path"
   Packages = {}
   K = 3
